@@ -596,6 +596,194 @@ def loader_history(ctx, out, rng, n_ops):
         out.traces_validated += 1
     out.count('loader_histories')
 
+# --------------------------------------------------------------------------- object-level repeatability
+
+def state_snap(o):
+    """deep snapshot of what an analysis object stores (arrays A, B, C, D, stored solutions, mappings)"""
+    d = getattr(o, '__dict__', None)
+    if d is None:
+        return snap(o)
+    return [(k, snap(v)) for k, v in sorted(d.items())]
+
+def _eval_result(v, tgrid):
+    """a getter's answer as comparable data (time-domain getters return functions: sampled)"""
+    if callable(v) and not isinstance(v, type):
+        return ('fn', outcome(lambda: v(tgrid)))
+    if isinstance(v, tuple) and any(callable(x) for x in v):
+        return tuple(_eval_result(x, tgrid) for x in v)
+    return v
+
+def repeat_check(ctx, out, label, make, queries, args, rng, case):
+    """every getter twice, in different orders, on the SAME object and on a fresh object: all answers equal; what the object
+    stores and every argument unchanged"""
+    tgrid = np.array([0.0, 0.1, 0.37, 1.0])
+    out.evaluations += 1
+    out.count('object:' + label)
+    args_before = {k: snap(v) for k, v in args.items()}
+    k0, o1 = outcome(make)
+    if k0 == 'err':
+        out.count(f'object_construct_error:{label}:{o1}')
+        k0b, o1b = outcome(make)
+        if (k0b, o1b if k0b == 'err' else None) != ('err', o1):
+            out.spec_fail(dict(op=label, symptom='construction_not_repeatable'), f'{label}: constructing twice gives different outcomes', case)
+        return
+    def ask(o, order):
+        res = {}
+        for i in order:
+            name, q = queries[i]
+            kk, v = outcome(lambda: q(o))
+            res[i] = snap((kk, _eval_result(v, tgrid) if kk == 'ok' else v))
+        return res
+    fwd = list(range(len(queries)))
+    st0 = state_snap(o1)
+    a1 = ask(o1, fwd)
+    st1 = state_snap(o1)
+    a2 = ask(o1, fwd[::-1])
+    a3 = ask(o1, fwd)
+    k0, o2 = outcome(make)
+    shuffled = fwd[:]; rng.shuffle(shuffled)
+    b = ask(o2, shuffled) if k0 == 'ok' else {}
+    out.traces_validated += 1
+    def fail(symptom, i, what, x, y):
+        out.spec_fail(dict(op=label, symptom=symptom, getter=queries[i][0].split('(')[0] if i is not None else 'none'), f'{label}: {what}', case,
+                      impl=dict(query=queries[i][0] if i is not None else None, first=str(x)[:300], other=str(y)[:300]))
+    for i in fwd:
+        if a1[i] != a3[i]: return fail('repeat_differs', i, f'{queries[i][0]} asked again on the same object answers differently', a1[i], a3[i])
+        if a1[i] != a2[i]: return fail('order_dependent', i, f'{queries[i][0]} answers differently when the getters are called in another order', a1[i], a2[i])
+        if b and a1[i] != b[i]: return fail('fresh_object_differs', i, f'{queries[i][0]} on a fresh object of the same description answers differently', a1[i], b[i])
+    if st0 != st1 or state_snap(o1) != st0:
+        changed = [k for (k, v0), (_, v1) in zip(st0, state_snap(o1)) if v0 != v1] if len(st0) == len(state_snap(o1)) else ['<fields>']
+        return fail('object_state_changed', None, f'queries changed what the object stores: {changed}', '', '')
+    for k, v in args.items():
+        if snap(v) != args_before[k]:
+            out.spec_fail(dict(op=label, symptom='argument_mutated', param=k, kind=type(v).__name__), f'{label} changed its argument {k!r}', case)
+            return
+    out.nontrivial(('object', label, len(queries)))
+
+def object_cases(ctx, out, rng, n_circuits):
+    from CircuitCalculator.Circuit import solution as cs, circuit as cc
+    from CircuitCalculator.Network.NodalAnalysis import state_space_model as ssm, bias_point_analysis as bp
+    for ci in range(n_circuits):
+        if ctx.time_left() < 10: return
+        c = gen_circuit(rng)
+        ids = [x.id for x in c.components if x.type != 'ground']
+        nodes = sorted({n for x in c.components for n in x.nodes})
+        ids_q, nodes_q = ids[:4], nodes[:3]
+        case = dict(circuit=[f'{x.type}:{x.id}{tuple(x.nodes)}{x.value}' for x in c.components], seed=ctx.seed, case=ci)
+        def sol_queries():
+            q = [(f'get_potential({n!r})', lambda o, n=n: o.get_potential(n)) for n in nodes_q]
+            for i in ids_q:
+                q += [(f'get_voltage({i!r})', lambda o, i=i: o.get_voltage(i)), (f'get_current({i!r})', lambda o, i=i: o.get_current(i)),
+                      (f'get_power({i!r})', lambda o, i=i: o.get_power(i))]
+            return q
+        w = rng.choice([0.0, 1.0, 2.0, 10.0]); w_max = rng.choice([0, 5.0, 25.0])
+        args = dict(circuit=c)
+        repeat_check(ctx, out, 'DCSolution', lambda: cs.DCSolution(c), sol_queries(), args, rng, case)
+        repeat_check(ctx, out, 'ComplexSolution', lambda: cs.ComplexSolution(c, w=w, peak_values=bool(ci % 2)), sol_queries(), args, rng, dict(case, w=w))
+        repeat_check(ctx, out, 'TimeDomainSolution', lambda: cs.TimeDomainSolution(c, w_max=w_max), sol_queries()[:7], args, rng, dict(case, w_max=w_max))
+        for one_sided in (True, False):
+            repeat_check(ctx, out, 'FrequencyDomainSolution' + ('' if one_sided else '_two_sided'),
+                         lambda: cs.FrequencyDomainSolution(c, w_max=w_max, one_sided=one_sided), sol_queries(), args, rng, dict(case, w_max=w_max))
+        if ci % 3 == 0:
+            tin = np.linspace(0, 0.05, 6)
+            srcs = {x.id: (lambda t, v=float(x.value.get('V', x.value.get('I', 1.0))): v * np.ones(np.size(t))) for x in c.components if 'w' in x.value}
+            repeat_check(ctx, out, 'TransientSolution', lambda: cs.TransientSolution(c, tin=tin, input=srcs), sol_queries()[:7],
+                         dict(circuit=c, tin=tin), rng, case)
+        # the nodal state-space model and the network solution of the circuit's DC network
+        knet, net = outcome(lambda: cc.transform_circuit(c, 0))
+        if knet == 'ok':
+            cvals = {x.id: float(x.value['C']) for x in c.components if x.type == 'capacitor'}
+            lvals = {x.id: float(x.value['L']) for x in c.components if x.type == 'inductance'}
+            bids = [b.id for b in net.branches][:5]
+            labels = _labels(net)[:3]
+            rows = [(f'c_row_for_potential({n!r})', lambda o, n=n: o.c_row_for_potential(n)) for n in labels] + \
+                   [(f'd_row_for_potential({n!r})', lambda o, n=n: o.d_row_for_potential(n)) for n in labels]
+            for i in bids:
+                rows += [(f'c_row_voltage({i!r})', lambda o, i=i: o.c_row_voltage(i)), (f'c_row_current({i!r})', lambda o, i=i: o.c_row_current(i)),
+                         (f'd_row_voltage({i!r})', lambda o, i=i: o.d_row_voltage(i)), (f'd_row_current({i!r})', lambda o, i=i: o.d_row_current(i))]
+            rows.append(('sources', lambda o: o.sources))
+            repeat_check(ctx, out, 'NodalStateSpaceModel', lambda: ssm.nodal_state_space_model(net, c_values=cvals, l_values=lvals), rows,
+                         dict(network=net, c_values=cvals, l_values=lvals), rng, case)
+            nq = [(f'get_potential({n!r})', lambda o, n=n: o.get_potential(n)) for n in labels]
+            for i in bids:
+                nq += [(f'get_voltage({i!r})', lambda o, i=i: o.get_voltage(i)), (f'get_current({i!r})', lambda o, i=i: o.get_current(i)),
+                       (f'get_power({i!r})', lambda o, i=i: o.get_power(i))]
+            repeat_check(ctx, out, 'NodalAnalysisBiasPointSolution', lambda: bp.nodal_analysis_bias_point_solver(net), nq, dict(network=net), rng, case)
+
+DIAGRAM_DESCRIPTION = dict(unit=5, elements=[
+    {'type': 'voltage_source', 'V': 10.0, 'name': 'V1', 'direction': 'up'}, {'type': 'node', 'name': 'a'},
+    {'type': 'resistor', 'R': 3.0, 'name': 'R1', 'direction': 'right'}, {'type': 'node', 'name': 'b'},
+    {'type': 'resistor', 'R': 2.0, 'name': 'R2', 'direction': 'down', 'reverse': True},
+    {'type': 'line', 'direction': 'left'}, {'type': 'ground'}])
+DIAGRAM_ANNOTATIONS = dict(voltages=[dict(name='R1'), dict(name='R2', reverse=True)],
+                           currents=[dict(name='R1', reverse=True, end=True), dict(name='R2'), dict(name='V1', end=True)],
+                           powers=[dict(name='R1')], potentials=[dict(name='a'), dict(name='b', loc='N')])
+
+def diagram_cases(ctx, out, rng):
+    """SchematicDiagramSolution.draw_* and create_schematic on the SAME description"""
+    import contextlib, io
+    try:
+        import schemdraw
+        schemdraw.use('svg')
+        from CircuitCalculator.SimpleSimulation.schematic import create_schematic
+        from CircuitCalculator.SimpleCircuit import DiagramSolution as ds, Elements as elm
+        from props import c14
+    except Exception as e:          # noqa: BLE001
+        out.notes.append(f'diagram repeatability skipped: {type(e).__name__}'); return
+    def texts_of(sch):
+        return [(type(l).__name__, c14.label_text(l), l._userparams.get('reverse')) for l in sch.elements
+                if isinstance(l, (elm.VoltageLabel, elm.CurrentLabel, elm.PowerLabel, elm.LabelNode)) and getattr(l, '_userlabels', None)]
+    def quiet(f):
+        def g(*a, **k):
+            with contextlib.redirect_stdout(io.StringIO()):
+                return f(*a, **k)
+        return g
+    for sol_type, params in (('real', {}), ('complex', dict(precision=3)), ('complex', dict(polar=True, deg=True)),
+                             ('single_frequency_time_domain', dict(w=0.0))):
+        desc = copy.deepcopy(DIAGRAM_DESCRIPTION)
+        desc['solution'] = dict(copy.deepcopy(DIAGRAM_ANNOTATIONS), type=sol_type, **params)
+        case = dict(description=desc, solution_type=sol_type)
+        # create_schematic used as an "object": the same description again and again, and a fresh copy of it
+        pristine = copy.deepcopy(desc)
+        repeat_check(ctx, out, f'create_schematic[{sol_type}]', lambda: desc,
+                     [('create_schematic(description)', lambda d: texts_of(quiet(create_schematic)(d)))], dict(description=desc), rng, case)
+        kf, fresh = outcome(lambda: texts_of(quiet(create_schematic)(copy.deepcopy(pristine))))
+        ks, same = outcome(lambda: texts_of(quiet(create_schematic)(desc)))
+        if (kf, snap(fresh)) != (ks, snap(same)):
+            out.spec_fail(dict(op=f'create_schematic[{sol_type}]', symptom='fresh_object_differs', getter='create_schematic'),
+                          'a description that was used before gives a different schematic than a fresh copy of it', case,
+                          impl=dict(used=str(same)[:300], fresh=str(fresh)[:300]))
+        # the solution object of a drawn schematic
+        bare = {k: v for k, v in pristine.items() if k != 'solution'}
+        ksch, sch = outcome(lambda: quiet(create_schematic)(copy.deepcopy(bare)))
+        if ksch == 'err':
+            continue
+        maker = {'real': lambda: ds.real_solution(sch), 'complex': lambda: ds.complex_solution(sch, **params),
+                 'single_frequency_time_domain': lambda: ds.single_frequency_time_domain_steady_state_solution(sch, **params)}[sol_type]
+        lab = lambda l: (type(l).__name__, c14.label_text(l), l._userparams.get('reverse'))
+        q = []
+        for a in DIAGRAM_ANNOTATIONS['voltages']: q.append((f'draw_voltage({a})', lambda o, a=a: lab(o.draw_voltage(**a))))
+        for a in DIAGRAM_ANNOTATIONS['currents']: q.append((f'draw_current({a})', lambda o, a=a: lab(o.draw_current(**a))))
+        for a in DIAGRAM_ANNOTATIONS['powers']: q.append((f'draw_power({a})', lambda o, a=a: lab(o.draw_power(**a))))
+        for a in DIAGRAM_ANNOTATIONS['potentials']: q.append((f'draw_potential({a})', lambda o, a=a: lab(o.draw_potential(**a))))
+        ann = copy.deepcopy(DIAGRAM_ANNOTATIONS)
+        class _NoState:        # the solution object holds the whole drawing: its state snapshot is the labels it produces
+            pass
+        repeat_check(ctx, out, f'SchematicDiagramSolution[{sol_type}]', quiet(maker), q, dict(annotations=DIAGRAM_ANNOTATIONS), rng, case)
+        if snap(ann) != snap(DIAGRAM_ANNOTATIONS):
+            out.spec_fail(dict(op=f'SchematicDiagramSolution[{sol_type}]', symptom='argument_mutated', param='annotations', kind='dict'),
+                          'draw_* changed the caller\'s annotation dictionaries', case)
+    try:
+        import matplotlib.pyplot as plt
+        plt.close('all')
+    except Exception:
+        pass
+
+def run_object_repeatability(ctx, out):
+    rng = ctx.rng('objects')
+    object_cases(ctx, out, rng, 10 if ctx.quick else 150)
+    diagram_cases(ctx, out, rng)
+
 # --------------------------------------------------------------------------- file histories (save / load of shared paths)
 
 def file_history(ctx, out, rng, n_ops, tmpdir, hno):
@@ -709,6 +897,7 @@ def run(ctx, out):
             if ctx.time_left() < 5: break
             loader_history(ctx, out, ctx.rng('loader_history', hno), 12 if ctx.quick else 30)
     run_file_histories(ctx, out, 30 if ctx.quick else 300, 14 if ctx.quick else 40)
+    run_object_repeatability(ctx, out)
     out.sample(dict(pool='net0..2, circ0..1, keep0..1, cval/lval, desc0..2, z0..1, tree0..1, cdesc0..1, wlist, warr, idsA/B',
                     operations=sorted(ops)))
 
@@ -716,12 +905,15 @@ def replay(ctx, out, rp):
     """re-run the recorded history (same seed derivation) up to and including the failing step"""
     inp = rp.get('input', {})
     hno = inp.get('history')
-    if hno is None:
+    if hno is None and not ('circuit' in inp or 'description' in inp):
         raise SystemExit('replay file carries no history number')
     effects, mdefaults, in_scope, exceptions, raw = load_effects(ctx, out)
     ops = build_ops()
     defaults, tables = collect_defaults()
     n_ops = (25 if rp.get('tier', 'quick') == 'quick' else 100)
+    if 'circuit' in inp or 'description' in inp:
+        run_object_repeatability(ctx, out)
+        return
     if isinstance(hno, str) and hno.startswith('file'):
         run_file_histories(ctx, out, 30, 14)
     elif hno == 'corpus':
